@@ -36,6 +36,15 @@ RELEVANT = {
     "session.go": ["C01", "C04", "C05", "C08", "C09", "C06", "C03", "C07", "C02", "C10", "C11", "C18", "C16", "C17", "C15", "C12"],
     "config.go": ["C18", "C01"],
 }
+# checks whose harness never executes the file (skipped for survivors to save time)
+UNRELATED = {
+    "passwords.go": [c for c in ALL if c != "C20"],
+    "ids.go": ["C13", "C14", "C16", "C17", "C20"],
+    "mutexes.go": ["C16", "C17", "C19", "C20"],
+    "persistence.go": ["C13", "C14", "C19", "C20"],
+    "cache.go": ["C13", "C14", "C16", "C17", "C19", "C20"],
+    "session.go": ["C13", "C14", "C19", "C20"],
+}
 GOENV = dict(os.environ, GOFLAGS="-mod=mod", GOPROXY="off", GOSUMDB="off", GOTOOLCHAIN="local")
 
 
@@ -233,7 +242,7 @@ def worker(wid, q, outdir, respath, lock, order_all):
                     res["status"] = "tests"
                 else:
                     res["vet"] = b2.returncode == 0
-                    order = RELEVANT.get(m["file"], []) + [c for c in order_all if c not in RELEVANT.get(m["file"], [])]
+                    order = RELEVANT.get(m["file"], []) + [c for c in order_all if c not in RELEVANT.get(m["file"], []) and c not in UNRELATED.get(m["file"], [])]
                     res["status"] = "survived"
                     for pr in order:
                         try:
